@@ -45,6 +45,9 @@ def matrix22MulBase (r0 r1 r2 r3 m0 m1 m2 m3 : Nat) : Nat × Nat × Nat × Nat :
     naturals, the C's sign flags r1s, r3s, s0s, t0s, u1s are Booleans (true = negative).
     `rn`, `mn` are the operand sizes; r_i < B^rn, m_i < B^mn. -/
 def strassen (r0 r1 r2 r3 rn m0 m1 m2 m3 mn : Nat) : Nat × Nat × Nat × Nat :=
+  let K := B ^ rn                                                -- weight of limb rn of the r-operands
+  let L := B ^ mn                                                -- weight of limb mn of the m-operands
+  let P := B ^ (rn + mn + 1)                                     -- size of the result areas
   let u0 := r1 * m2                                              -- :135 MUL (u0, r1, rn, m2, mn)    u5 = s5·t6
   let r3' := absSubN r3 r2                                       -- :136 r3s = abs_sub_n (r3, r3, r2, rn)
   let r3 := r3'.1; let r3s := r3'.2
@@ -54,9 +57,9 @@ def strassen (r0 r1 r2 r3 rn m0 m1 m2 m3 mn : Nat) : Nat × Nat × Nat × Nat :=
   let r1 := r1'.1; let r1s := r1'.2
   let s0' : Nat × Bool :=                                        -- :147-162
     if r1s then (r1 + r0, false)                                 --   s0[rn] = mpn_add_n (s0, r1, r0, rn); s0s = 0
-    else if r1 / B ^ rn ≠ 0 then                                 --   r1[rn] != 0
-      ((r1 % B ^ rn + B ^ rn - r0) % B ^ rn                      --   s0[rn] = r1[rn] - mpn_sub_n (s0, r1, r0, rn)
-        + ((r1 / B ^ rn + B - (if r1 % B ^ rn < r0 then 1 else 0)) % B) * B ^ rn, true)    -- s0s = 1
+    else if r1 / K ≠ 0 then                                      --   r1[rn] != 0
+      ((r1 % K + K - r0) % K                                     --   s0[rn] = r1[rn] - mpn_sub_n (s0, r1, r0, rn)
+        + ((r1 / K + B - (if r1 % K < r0 then 1 else 0)) % B) * K, true)   -- s0s = 1
     else absSubN r0 r1                                           --   s0s = abs_sub_n (s0, r0, r1, rn); s0[rn] = 0
   let s0 := s0'.1; let s0s := s0'.2
   let u1 := r0 * m0                                              -- :163 MUL (u1, r0, rn, m0, mn)   u0 = s0·t0
@@ -70,24 +73,24 @@ def strassen (r0 r1 r2 r3 rn m0 m1 m2 m3 mn : Nat) : Nat × Nat × Nat × Nat :=
     else (t0 + m1, false)                                        --   t0[mn] = mpn_add_n (t0, t0, m1, mn)
   let t0 := t0'.1; let t0s := t0'.2
   let r3 :=                                                      -- :187-198                          u3 = s3·t3
-    if t0 / B ^ mn ≠ 0 then                                      --   t0[mn] != 0
-      ((r1 % B ^ rn) * t0                                        --   MUL (r3, r1, rn, t0, mn + 1)
-        + (if r1 / B ^ rn ≠ 0 then B ^ rn * t0 else 0)) % B ^ (rn + mn + 1)   -- mpn_add_n (r3 + rn, r3 + rn, t0, mn + 1), carry dropped
+    if t0 / L ≠ 0 then                                           --   t0[mn] != 0
+      ((r1 % K) * t0                                             --   MUL (r3, r1, rn, t0, mn + 1)
+        + (if r1 / K ≠ 0 then K * t0 else 0)) % P                -- mpn_add_n (r3 + rn, r3 + rn, t0, mn + 1), carry dropped
     else r1 * t0                                                 --   MUL (r3, r1, rn + 1, t0, mn)
   let r3' : Nat × Bool :=                                        -- :202-211  (u0[rn+mn] = 0)
     if r1s != t0s then absSubN u0 r3                             --   r3s = abs_sub_n (r3, u0, r3, rn + mn + 1)
-    else ((r3 + u0) % B ^ (rn + mn + 1), false)                  --   ASSERT_NOCARRY (mpn_add_n (r3, r3, u0, rn + mn + 1)); r3s = 0
+    else ((r3 + u0) % P, false)                                  --   ASSERT_NOCARRY (mpn_add_n (r3, r3, u0, rn + mn + 1)); r3s = 0
   let r3 := r3'.1; let r3s := r3'.2
   let t0' : Nat × Bool :=                                        -- :213-224
     if t0s then (t0 + m0, true)                                  --   t0[mn] = mpn_add_n (t0, t0, m0, mn)
-    else if t0 / B ^ mn ≠ 0 then                                 --   t0[mn] -= mpn_sub_n (t0, t0, m0, mn)
-      ((t0 % B ^ mn + B ^ mn - m0) % B ^ mn
-        + ((t0 / B ^ mn + B - (if t0 % B ^ mn < m0 then 1 else 0)) % B) * B ^ mn, false)
+    else if t0 / L ≠ 0 then                                      --   t0[mn] -= mpn_sub_n (t0, t0, m0, mn)
+      ((t0 % L + L - m0) % L
+        + ((t0 / L + B - (if t0 % L < m0 then 1 else 0)) % B) * L, false)
     else absSubN t0 m0                                           --   t0s = abs_sub_n (t0, t0, m0, mn)
   let t0 := t0'.1; let t0s := t0'.2
   let u0 := r2 * t0                                              -- :225 MUL (u0, r2, rn, t0, mn + 1)  u6 = s6·t4
   let r1 :=                                                      -- :227-234
-    if r1s then (r2 + B ^ rn - r1) % B ^ rn                      --   ASSERT_NOCARRY (mpn_sub_n (r1, r2, r1, rn))
+    if r1s then (r2 + K - r1) % K                                --   ASSERT_NOCARRY (mpn_sub_n (r1, r2, r1, rn))
     else r1 + r2                                                 --   r1[rn] += mpn_add_n (r1, r1, r2, rn)
   let rn := rn + 1                                               -- :235
   let r2' := addSignedN r3 r3s u0 t0s (rn + mn)                  -- :236 t0s = add_signed_n (r2, r3, r3s, u0, t0s, rn + mn)
